@@ -16,7 +16,8 @@ RULE = ("Model-based histories on ONE Spinner over a deterministic virtual-time 
         "result / exception / TimeoutError / NoResultError / ReentryError / StaleJunkError by a timeline model "
         "(ties admit either outcome), reactor not running, no delayed calls or selectables left, leftovers reported "
         "as junk, reactor.stop and the three signal handlers restored. A small real-reactor tier (thorough) runs the "
-        "timing-insensitive subset on the global reactor. Non-trivial: second or later run on the same spinner, or "
+        "timing-insensitive subset on the global reactor. Also: f firing (callback or errback) the Deferred an earlier unfinished run waited on, delayed calls that exist before run(), positional and keyword arguments of run(), fractional timeouts, reactor.stop and pending calls after a refused run. "
+        "Non-trivial: second or later run on the same spinner, or "
         "an interrupt, or leftovers; distinct = distinct canonical history.")
 ASSUMPTIONS = [
     "the virtual reactor (task.Clock + ~120 lines) is faithful for what Spinner touches; ties at one virtual instant admit either order",
